@@ -368,6 +368,13 @@ def run(ctx):
     r06_2_encode_tuple(ctx)
     r06_3_uint(ctx)
     r06_4_bool_and_prefix(ctx)
+    from rules import c03 as _c03, c11 as _c11
+
+    # the encoders park head/tail pieces in temporaries (store ...; load ...): the encoded bytes survive compilation only
+    # if the slot optimiser deletes nothing that is still read (shared with C03) ...
+    _c03.r03_2_dependency_scan(ctx)
+    # ... and the storage back-end of a new ABI value is the proto that is current: it must be restored on every exit (shared with C11)
+    _c11.r11_3_exception_safe_restore(ctx)
     return (
         "Abstract evaluation of the ABI layer's own code: type descriptors of every shape of a bounded nested universe against an ARC-4 reference model; _encode_tuple on all "
         "short member-kind sequences with symbolic member values (head order, bool runs, running tail offsets as linear forms, tail order); uint range checks and big-endian "
